@@ -641,3 +641,37 @@ fn idxguard_replay() {
         println!("OBSERVED: {}", bad.join("; "));
     }
 }
+
+// ---------------------------------------------------------------------------------------------
+// E3n replay (C11): two values of different kinds that are equal? (VERIF_HASH_PAIRS = "A|B;;A|B") must be the same
+// hash-map key and the same hash-set member.
+#[test]
+fn hashkey_replay() {
+    let spec = std::env::var("VERIF_HASH_PAIRS").expect("VERIF_HASH_PAIRS");
+    let mut engine = Engine::new();
+    let mut bad = Vec::new();
+    for item in spec.split(";;").filter(|x| !x.trim().is_empty()) {
+        let parts: Vec<&str> = item.split('|').collect();
+        if parts.len() != 2 {
+            continue;
+        }
+        let (a, b) = (parts[0], parts[1]);
+        let mut eval = |src: String| engine.run(src).map(|vals| vals.last().map(|v| v.to_string()).unwrap_or_default()).map_err(|e| e.to_string());
+        let eq = eval(format!("(equal? {} {})", a, b));
+        if eq != Ok("#true".to_string()) {
+            eprintln!("NOTE: (equal? {} {}) => {:?}: not an equal pair, nothing to compare", a, b, eq);
+            continue;
+        }
+        for src in [format!("(hash-contains? (hash {} 'x) {})", a, b), format!("(hashset-contains? (hashset {}) {})", a, b)] {
+            let got = eval(src.clone());
+            if got != Ok("#true".to_string()) {
+                bad.push(format!("(equal? {} {}) is #true but {} => {:?}", a, b, src, got));
+            }
+        }
+    }
+    if bad.is_empty() {
+        println!("COMPLETED: equal? values were interchangeable as keys");
+    } else {
+        println!("OBSERVED: {}", bad.join("; "));
+    }
+}
